@@ -4,6 +4,7 @@
 From Coq Require Import List NArith ZArith Bool.
 From V.C14 Require Import WireModel WireSpec WireLemmas WireProofs.
 From V.C14 Require Import BytesModel BytesSpec BytesProofs.
+From V.C14 Require Import SerModel SerSpec SerProofs.
 Import ListNotations.
 Open Scope N_scope.
 
@@ -95,3 +96,38 @@ Print Assumptions urlencode_form_text.
 Theorem pct_text_decodes : forall plus t, pct_text plus t -> exists s, unescape plus t = Some s.
 Proof. exact pct_text_decodes_l. Qed.
 Print Assumptions pct_text_decodes.
+
+(* ====================================================================== (3) serialize / unserialize *)
+(* "the matching decoder inverts it exactly": for every value built from null, bool, 64-bit int,
+   byte string (any bytes: quotes, semicolons, NUL), list and string-keyed map, nested arbitrarily,
+   unserialize(serialize(v)) is v — as a PHP value: an empty map comes back as the empty list *)
+Theorem unserialize_serialize : forall v, serializable v = true ->
+  exists t, serialize v = Some t /\ unserialize t = POk (canon v).
+Proof. exact unserialize_serialize_l. Qed.
+Print Assumptions unserialize_serialize.
+
+(* "every decoder is total": the fuel unserialize gives its scanner (2*len+2) always suffices;
+   the model has no partial operation (every index is guarded by a length test, as in the code) *)
+Theorem unserialize_total : forall s, unserialize s <> POutOfFuel.
+Proof. exact unserialize_total_l. Qed.
+Print Assumptions unserialize_total.
+
+(* "account for every input byte": the strict parser accepts only when the scanner stopped exactly
+   at the end of the input, and every value it reads consumes at least two bytes *)
+Theorem parse_strict_consumes : forall s v, parse_strict s = POk v ->
+  parse_value (fuel_for s) s = POk (v, []).
+Proof. exact parse_strict_consumes_l. Qed.
+Print Assumptions parse_strict_consumes.
+
+Theorem scanner_moves_forward : forall f s v r, parse_value f s = POk (v, r) ->
+  (length r + 2 <= length s)%nat.
+Proof. exact scanner_moves_forward_l. Qed.
+Print Assumptions scanner_moves_forward.
+
+(* FULL STATEMENTS NOT PROVED / REFUTED for this codec:
+   - "every encoder emits output ...": refuted for floats (serialize returns false), see
+     Examples.serialize_float_refuted; known finding ser:enc:unsupported:float.
+   - "accept exactly the well-formed inputs": refuted by the white-space trimming of the wrapper,
+     see Examples.unserialize_whitespace_refuted; known finding unser:accept:surrounding-whitespace.
+     An equivalence of parse_strict with an inductive grammar (as proved for the wire codec) is
+     not proved; what is proved about acceptance is the two theorems above. *)
